@@ -11,6 +11,10 @@ rejected under another is a violation too.
 (B) contract_with_unroll: one network, every pairwise contraction path (all for <= 4 tensors) x unroll
 specifications (none, make_sliced_legs on a contracted / an output / several labels, integer sizes,
 slice_leg_uniform) must equal np.einsum of the harness dense images.
+(D) high-volume family over a tiny universe of legs (1-3 sectors of dimension 1-3, contracted legs already in place,
+blocks without a partner in the other operand): the same tensordot under the three policies, from plain and from
+hard-/meta-fused contracted legs, must agree with each other and with NumPy - layout coincidences that decide whether
+a no-copy fast path of one policy is taken occur only at this density.
 """
 from __future__ import annotations
 
@@ -36,16 +40,21 @@ DATA_MOVE = {"transpose", "conj", "conj_blocks", "flip_signature", "consume_tran
              "remove_leg", "swap_gate", "diag", "flip_charges", "to_dict", "zero_block", "remove_zero_blocks", "mask"}
 
 
+MAIN_CASES = {"quick": 1400, "thorough": 12000}
+TINY_CASES = {"quick": 16000, "thorough": 300000}
+
+
 def plan(tier):
     if tier == "thorough":
-        return {"cases": 12000, "shards": 16, "budget_s": 1500}
-    return {"cases": 1400, "shards": 8, "budget_s": 300}
+        return {"cases": MAIN_CASES[tier] + TINY_CASES[tier], "shards": 16, "budget_s": 1500}
+    return {"cases": MAIN_CASES[tier] + TINY_CASES[tier], "shards": 8, "budget_s": 300}
 
 
 def floors(tier):
     k = 15 if tier == "thorough" else 1
     return {"programs": 120 * k, "config_runs": 900 * k, "hard_vs_meta_pairs": 120 * k, "lazy_perturbations": 300 * k,
-            "unroll_variants": 250 * k, "paths_tried": 150 * k, "steps_compared": 6000 * k, "family_adds": 1500 * k}
+            "unroll_variants": 250 * k, "paths_tried": 150 * k, "steps_compared": 6000 * k, "family_adds": 1500 * k,
+            "tiny_policy_triples": 8000 * k, "tiny_operand_with_unpartnered_blocks": 2000 * k}
 
 
 # ------------------------------------------------------------------ (A) programs under configurations
@@ -459,7 +468,60 @@ def fused_family_case(ctx, idx):
              {"kind": "fused-family", "sym": sym, "groups": groups, "lazy": lazy, "tensors": [h.desc() for h in hs]} if idx < 30 and idx % 12 == 7 else None)
 
 
+def tiny_policy_case(ctx, idx):
+    """(D) one tiny contraction under the three policies x (plain | contracted legs fused hard | fused meta)."""
+    import yastn
+    from checks.c01 import tiny_operands
+    sym, a, b, k, open_a, open_b = tiny_operands(ctx.rng(idx), ctx.nprng(idx), idx)
+    rng = ctx.rng(idx, salt=7)
+    ax = (tuple(range(1, k + 1)), tuple(range(k)))
+    e = np.tensordot(a.dense(), b.dense(), axes=ax)
+    tol = 8 * 2.3e-16 * 40 * max(float(np.linalg.norm(a.dense())) * float(np.linalg.norm(b.dense())), 1e-300)
+    keys_a = {tuple(kk[1:]) for kk in a.blocks}
+    keys_b = {tuple(kk[:k]) for kk in b.blocks}
+    if keys_a != keys_b:
+        ctx.count("tiny_operand_with_unpartnered_blocks")
+    variant = rng.choice(("plain", "plain", "hard", "meta"))
+    got = {}
+    for pol in POLICIES:
+        cfg = D.make_cfg(sym, False, tensordot_policy=pol)
+        ya, yb = a.to_yastn(cfg), b.to_yastn(cfg)
+        try:
+            if variant == "plain":
+                r = yastn.tensordot(ya, yb, axes=ax)
+            else:
+                fa = ya.fuse_legs(axes=(0, tuple(range(1, k + 1))), mode=variant)
+                fb = yb.fuse_legs(axes=(tuple(range(k)), k), mode=variant)
+                r = yastn.tensordot(fa, fb, axes=(1, 0))
+        except Exception as ex:       # noqa: BLE001
+            got[pol] = ("exception", type(ex).__name__, str(ex)[:120])
+            continue
+        if r.ndim != 2 or tuple(r.n) != tuple(G.add(sym, (a.n, b.n))) or any(D.sub_leg_ok(yl, hl) for yl, hl in zip(r.get_legs(), (open_a, open_b))):
+            got[pol] = ("structure", r.ndim, tuple(r.n), repr(r.get_legs())[:200])
+            continue
+        got[pol] = ("tensor", D.obs_dense(r, [open_a, open_b]))
+    ctx.count("tiny_policy_triples")
+    ctx.count(f"tiny:{variant}")
+    sample = {"sym": sym, "variant": variant, "operands": [a.desc(values=True), b.desc(values=True)]}
+    for pol, g in got.items():
+        if g[0] != "tensor":
+            ctx.violation(f"tiny:{g[0]}:{pol}:{variant}", f"tiny tensordot under {pol} ({variant}): {g[1:]}", sample)
+        else:
+            err = float(np.max(np.abs(g[1] - e))) if e.size else 0.0
+            if not ctx.margin("arith:tiny-tensordot", err, tol):
+                others = {q: (float(np.max(np.abs(h[1] - e))) if h[0] == "tensor" and e.size else None) for q, h in got.items() if q != pol}
+                ctx.violation(f"config-dependence:value:tiny-tensordot:{pol}:{variant}",
+                              f"tensordot under {pol} ({variant}) differs from NumPy by {err:.3e} (allowed {tol:.3e}); other policies: {others}",
+                              {**sample, "got": g[1], "expected": e})
+    if idx % 50 == 0:
+        ctx.case(("tiny", sym, variant, a.sig(), b.sig()), True)
+    else:
+        ctx.counters["evaluations"] += 1
+
+
 def run_case(ctx, idx):
+    if idx >= MAIN_CASES[ctx.tier]:
+        return tiny_policy_case(ctx, idx)
     if idx % 4 == 2:
         unroll_case(ctx, idx)
     elif idx % 4 == 3:
